@@ -206,7 +206,8 @@ func main() {
 	gologging.SetLevel(gologging.CRITICAL, "plz")
 	lib.Main("C17", func(c *lib.Ctx) {
 		// (Model/C18.v used to alias C16.case; since 2a87b84 it wraps it, and C17 never needed more than C16's cases)
-		c.Model("From PlzV Require Import Model.C16_Syntax Model.C16_Eval Model.C16.", "C16.case", "C16.check")
+		// follow-up 2: Model/C17_Config.v wraps C16's case type (CBase) and adds the CONFIG scenarios (CCfg)
+		c.Model("From PlzV Require Import Model.C16_Syntax Model.C16_Eval Model.C16 Model.C17_Config.", "C17_Config.case", "C17_Config.check")
 		c.Rule("scenarios = a generated build_defs file (nested list, flat list, filtered comprehension, dict with list and dict members, a function returning a list " +
 			"literal, a function with a list default) and two generated packages of 1-5 actions each on what they import (alias + index assignment, loops over nested " +
 			"lists, sorted/reversed of inner lists, +, +=, + [] and += [] followed by a write, + through a function of the defs file, dict members, direct assignment that must fail), each followed by reads of everything; run on the real " +
@@ -369,15 +370,16 @@ func main() {
 			hasWrite := strings.Contains(fmt.Sprint(srcs["a"]), "] = ")
 			coqDefs := lib.List([]string{lib.Pair(lib.Str("//defs:d"), aspgen.CoqProg(defs))})
 			pa, pb := build(A, nil, "a"), build(B, nil, "b")
-			c.Case(lib.App("CAsp", "false", coqDefs, lib.List([]string{aspgen.CoqProg(pa), aspgen.CoqProg(pb)}), lib.List([]string{coqOutcome(ab["a"]), coqOutcome(ab["b"])})),
+			c.Case(cbase("CAsp", "false", coqDefs, lib.List([]string{aspgen.CoqProg(pa), aspgen.CoqProg(pb)}), lib.List([]string{coqOutcome(ab["a"]), coqOutcome(ab["b"])})),
 				map[string]any{"order": "a,b", "files": srcs, "a": ab["a"].Final, "b": ab["b"].Final, "errs": []string{ab["a"].Err, ab["b"].Err}}, "ab:"+key, hasWrite)
-			c.Case(lib.App("CAsp", "false", coqDefs, lib.List([]string{aspgen.CoqProg(pb)}), lib.List([]string{coqOutcome(alone)})),
+			c.Case(cbase("CAsp", "false", coqDefs, lib.List([]string{aspgen.CoqProg(pb)}), lib.List([]string{coqOutcome(alone)})),
 				map[string]any{"order": "b", "files": srcs, "b": alone.Final, "errs": []string{alone.Err}}, "b:"+key, false)
 		}
 		preloadStream(c)
 		freshStream(c)
 		privateStream(c)
 		spellingStream(c)
+		configStream(c)
 	})
 }
 
@@ -440,6 +442,9 @@ func preloadStream(c *lib.Ctx) {
 		}
 	}
 }
+
+// cbase wraps a case of Model/C16.v into the case type of Model/C17_Config.v.
+func cbase(ctor string, args ...string) string { return lib.App("CBase", lib.App(ctor, args...)) }
 
 func firstLine(s string) string {
 	if i := strings.IndexByte(s, '\n'); i >= 0 {
